@@ -214,6 +214,10 @@ def run(ctx):
         if fam == 'ugrid' and n % 3 == 0:
             kw = dict(w=rng.randint(3, 5), h=rng.randint(3, 4))       # enough faces for the tree order to matter
         d = gen.any_dataset(rng, fam, **kw)
+        if n % 2 == 1:
+            # the same dataset with its 2-D arrays held column-major in memory (after .T / transpose() / loadmat)
+            d.ds = gen.fortran_layout(d.ds)
+            ctx.count('memory_layout:column-major')
         ems = d.ds.ems
         polys = pm.impl_polygons(ems)
         if not any(p is not None for p in polys):
